@@ -172,6 +172,7 @@ func (o *OrderedMap[K, V]) Delete(key K) bool {
 		return false
 	}
 
+	verifYield("delete-after-precheck")
 	o.mutex.Lock()
 	defer o.mutex.Unlock()
 
